@@ -36,6 +36,18 @@ Theorem C06_cap : forall m oc1 oc2 h1 s1 h2 s2, wfs h1 s1 -> wfs h2 s2 -> fits s
   observable m (bs_call m oc1 h1 s1) = observable m (bs_call m oc2 h2 s2).
 Proof. exact cap_thm. Qed.
 
+(* where the contents determine the capacity (Clear: an empty slice of its own; Clip), the code has exactly that capacity *)
+Theorem C06_certain_cap : forall m oc h s k, wfs h s -> pure_cap m (contents h s) = Some k ->
+  cap (r_recv (bs_call m oc h s)) = k.
+Proof. exact certain_cap_thm. Qed.
+
+(* detaching methods (Clear, Filter): no old array is written and the receiver ends up on storage that shares nothing with
+   any slice that existed before - whatever was handed out earlier can no longer be reached through the wrapper *)
+Theorem C06_detach : forall m oc h s, detaches m = true -> wfs h s ->
+  let r := bs_call m oc h s in
+  ext h (r_heap r) /\ fresh h (r_recv r) /\ forall t, wfs h t -> shares (r_recv r) t = false.
+Proof. exact detach_thm. Qed.
+
 (* the binary search of the code meets its specification on sorted (monotone) receivers *)
 Theorem C06_search : forall cmp t c, partitioned cmp t c = true -> bsearch cmp t c = psearch cmp t c.
 Proof. exact ProofsPure.bsearch_spec. Qed.
@@ -81,6 +93,15 @@ Theorem C06_N4_unrepaired_refuted : exists h s n oc,
   wfs h s /\ fits s /\ growE_unrepaired h s n oc = Panic /\ r_err (bs_call (MGrow true n) oc h s) = true.
 Proof. exact n4_refuted. Qed.
 
+(* N5: Unmarshal as it was (decoding straight into x.e) let elements lying in the spare capacity show through:
+   [{1 alice}] with a stale {2 bob} behind it, Unmarshal [{"id":5},{"id":6}] gave {6 bob}; clipped it gave {6 ""} *)
+Theorem C06_N5_unrepaired_refuted : exists h1 s1 h2 s2 ds oc,
+  wfs h1 s1 /\ wfs h2 s2 /\ contents h1 s1 = contents h2 s2
+  /\ (let '(a, b) := unmarshal_docs_unrepaired h1 s1 ds oc in contents a b)
+     <> (let '(a, b) := unmarshal_docs_unrepaired h2 s2 ds oc in contents a b)
+  /\ (let '(a, b) := unmarshal_docs_unrepaired h2 s2 ds oc in contents a b) <> pure_recv (MUnmarshal (JDocs ds)) (contents h2 s2).
+Proof. exact n5_refuted. Qed.
+
 (* non-vacuity: a well-formed header with spare capacity and one without; Insert runs in place on the first and
    reallocates on the second, with equal resulting contents *)
 Example C06_nonvacuous :
@@ -98,6 +119,8 @@ Print Assumptions C06_pure.
 Print Assumptions C06_errors.
 Print Assumptions C06_copy.
 Print Assumptions C06_cap.
+Print Assumptions C06_certain_cap.
+Print Assumptions C06_detach.
 Print Assumptions C06_search.
 Print Assumptions C06_bmap.
 Print Assumptions C06_fmap_laws.
@@ -108,3 +131,4 @@ Print Assumptions C06_N1_unrepaired_refuted.
 Print Assumptions C06_N2_unrepaired_refuted.
 Print Assumptions C06_N3_unrepaired_refuted.
 Print Assumptions C06_N4_unrepaired_refuted.
+Print Assumptions C06_N5_unrepaired_refuted.
